@@ -213,6 +213,22 @@ func gen(r *vh.Rand) string {
 		return pre + rs + ";" + ss + ";" + joinP(pt)
 	}
 	vers := []string{"-", "31", "32", "312e31"}
+	if r.Chance(1, 8) {
+		// directed swap: the same addresses are reported by BOTH tables, once as single addresses (hash set) and once
+		// through ranges (pair table): during the swap every answer must be true; an answer assembled from the set of
+		// one table and the pairs of the other would be false
+		bs := bases(r)
+		var sing, rng []string
+		for i, k := 0, r.Range(1, 4); i < k; i++ {
+			v := clamp(new(big.Int).Add(bs[r.Intn(len(bs))], big.NewInt(int64(2+r.Intn(60)))))
+			sing = append(sing, enc(v, r.Bool()))
+			rng = append(rng, enc(clamp(new(big.Int).Sub(v, big.NewInt(1))), false)+":"+enc(clamp(new(big.Int).Add(v, big.NewInt(1))), false))
+		}
+		p := ";p=" + strings.Join(sing, ",")
+		a := "r=.;s=" + strings.Join(sing, ",") + p
+		b := "r=" + strings.Join(rng, ",") + ";s=." + p
+		return "v=31;" + a + "|k=w;v=32;" + b + "|k=g;v=31;" + a + "|k=g;v=31;" + b + "|k=w;v=32;" + a
+	}
 	var steps []string
 	var prev []string
 	ver := vers[r.Intn(len(vers))]
@@ -248,8 +264,10 @@ func gen(r *vh.Rand) string {
 				d += "ml=" + itoa([]int{0, total, total + 1, max0(total - 1)}[r.Intn(4)]) + ";"
 			}
 			steps = append(steps, "k=f;v="+ver+";"+d+rs+";"+ss+";"+joinP(probes))
-		case x < 14:
+		case x < 13:
 			steps = append(steps, "k=w;v="+ver+";"+rs+";"+ss+";"+joinP(probes)) // swap while searching
+		case x < 15:
+			steps = append(steps, "k=g;v="+ver+";"+rs+";"+ss+";"+joinP(probes)) // gated swap between snapshot and use
 		default:
 			x2 := ""
 			if r.Chance(1, 6) {
@@ -295,6 +313,10 @@ func list(s string) []string {
 //   k=f           write the step as an IP dict file (meta comment line iff the version is not empty, its counts off by
 //                 ds/dp; separators, blank and comment lines varied), load it the way mod_block does:
 //                 txt_load.CheckAndLoad(table.Version()), and Update only when it returned items without error
+//   k=g           build items X like k=u but with a gated single-address set, Update(X); then for every probe: arm the gate
+//                 so that it installs the PREVIOUS items the moment Search hashes the probe (= after Search took its
+//                 snapshot, before it looks at the pairs), Search, re-install X.  g=<answers>: each must be X's answer
+//                 (deterministic swap between snapshot and use).  L in place of an answer bit = table lock was held
 //   k=w           build items like k=u, then SWAP WHILE SEARCHING: a goroutine alternates Update(new)/Update(old) and ends
 //                 with Update(new) while this goroutine searches every probe repeatedly; w=<per probe: 0 all false,
 //                 1 all true, m mixed>.  The driver accepts any answer that the old or the new items give.
@@ -401,8 +423,16 @@ func step(ts *tstate, op string) string {
 		ld = "nil"
 	case "q":
 		ld = "keep"
-	case "u", "f", "w":
-		a, err1 := ipdict.NewIPItems(len(st)+len(rt), len(rt)) // the checked object (k=u,w): real Sort()
+	case "u", "f", "w", "g":
+		var gate func()
+		a, err1 := ipdict.NewIPItems(len(st)+len(rt), len(rt)) // the checked object (k=u,w,g): real Sort()
+		if kind == "g" {
+			a, err1 = ipdict.VerifNewGatedIPItems(len(st)+len(rt), len(rt), func() {
+				if gate != nil {
+					gate()
+				}
+			})
+		}
 		b, err2 := ipdict.NewIPItems(len(st)+len(rt), len(rt)) // the stepped twin: learns sort.Sort's permutations
 		if err1 != nil || err2 != nil {
 			return "new:err"
@@ -449,7 +479,7 @@ func step(ts *tstate, op string) string {
 			}
 		}
 		switch kind {
-		case "u", "w":
+		case "u", "w", "g":
 			s1, m, s2 = b.VerifSortSteps()
 			a.Sort()
 			if x2 {
@@ -460,13 +490,40 @@ func step(ts *tstate, op string) string {
 			length = itoa(a.Length())
 			if kind == "u" {
 				table.Update(a)
+			} else if kind == "g" {
+				table.Update(a)
+				old := ts.cur
+				var gb strings.Builder
+				for _, t := range pt {
+					locked := false
+					gate = func() {
+						gate = nil
+						locked = !table.VerifTryUpdate(old)
+					}
+					r := search1(table, t)
+					gate = nil
+					table.Update(a)
+					switch {
+					case locked:
+						gb.WriteByte('L')
+					case r:
+						gb.WriteByte('1')
+					default:
+						gb.WriteByte('0')
+					}
+				}
+				wres = ";g=" + dot(gb.String())
 			} else {
 				old := ts.cur
+				nSearch := 30
+				if vh.Thorough {
+					nSearch = 300
+				}
 				var wg sync.WaitGroup
 				wg.Add(1)
 				go func() {
 					defer wg.Done()
-					for i := 0; i < 300; i++ {
+					for i := 0; i < 10*nSearch; i++ {
 						table.Update(a)
 						table.Update(old)
 					}
@@ -475,7 +532,7 @@ func step(ts *tstate, op string) string {
 				var wb strings.Builder
 				for _, t := range pt {
 					tr, fa := 0, 0
-					for i := 0; i < 30; i++ {
+					for i := 0; i < nSearch; i++ {
 						if search1(table, t) {
 							tr++
 						} else {
